@@ -899,8 +899,15 @@ func ruleHD() Rule {
 					}
 					// comparison of a printed candidate with the delimiter string
 					isDelim := func(e ast.Expr) bool {
+						if info.Types[e].Type == nil || info.Types[e].Type.String() != "string" {
+							return false
+						}
+						if fld := stateField(info, e); fld != nil {
+							// the delimiter kept in a field of a per-here-document record
+							return fieldBoundToCallOf(c, funcs, fld, printFn)
+						}
 						id, ok := ast.Unparen(e).(*ast.Ident)
-						if !ok || info.Types[e].Type == nil || info.Types[e].Type.String() != "string" {
+						if !ok {
 							return false
 						}
 						obj := info.Uses[id]
@@ -1053,6 +1060,7 @@ func ruleHD() Rule {
 			// HD2: the flag is the boolean variable whose negation guards the interpreting calls
 			var quotedObj types.Object
 			var quotedFn *core.Func
+			var quotedExpr ast.Expr
 			interpFns := map[*core.Func]string{}
 			for _, n := range []string{"parser.(*lexer).scanParamExp", "parser.(*lexer).scanCmdSubst", "parser.(*lexer).esc"} {
 				if g := c.fn(n); g != nil {
@@ -1079,11 +1087,10 @@ func ruleHD() Rule {
 					if nm, ok := interpFns[c.P.FuncOf(fo)]; ok {
 						icalls = append(icalls, icall{g, call, nm})
 						for _, gd := range guardsOf(c.P, call, nil) {
-							if id, isID := ast.Unparen(gd.cond).(*ast.Ident); isID && !gd.pos {
-								if v, isVar := info.Uses[id].(*types.Var); isVar && v.Type().String() == "bool" && quotedObj == nil {
-									quotedObj = v
-									quotedFn = g
-								}
+							if v := flagCell(info, gd.cond); v != nil && !gd.pos && v.Type().String() == "bool" && quotedObj == nil {
+								quotedObj = v
+								quotedFn = g
+								quotedExpr = ast.Unparen(gd.cond)
 							}
 						}
 					}
@@ -1099,7 +1106,7 @@ func ruleHD() Rule {
 				key := f.Name + "|" + ic.name + " under !quoted"
 				ok := false
 				for _, gd := range guardsOf(c.P, ic.call, nil) {
-					if id, isID := ast.Unparen(gd.cond).(*ast.Ident); isID && quotedObj != nil && info.Uses[id] == quotedObj && !gd.pos {
+					if v := flagCell(info, gd.cond); v != nil && quotedObj != nil && types.Object(v) == quotedObj && !gd.pos {
 						ok = true
 					}
 				}
@@ -1197,15 +1204,38 @@ func ruleHD() Rule {
 				})
 			}
 			nset := 0
+			isField := false
+			if v, ok := quotedObj.(*types.Var); ok && v.IsField() {
+				isField = true
+			}
+			// where a flag is assigned: its function for a local, the whole region for a field
+			type flagScope struct {
+				obj types.Object
+				g   *core.Func
+				in  *ast.BlockStmt
+			}
+			var scopes []flagScope
 			for obj, g := range flags {
+				if v, ok := obj.(*types.Var); ok && v.IsField() {
+					for _, h := range funcs {
+						if h.Lit == nil {
+							scopes = append(scopes, flagScope{obj, h, h.Body})
+						}
+					}
+					continue
+				}
+				scopes = append(scopes, flagScope{obj, g, g.Root().Body})
+			}
+			sort.Slice(scopes, func(i, j int) bool { return scopes[i].in.Pos() < scopes[j].in.Pos() })
+			for _, sc := range scopes {
+				obj, g := sc.obj, sc.g
 				info := g.Info()
-				ast.Inspect(g.Root().Body, func(n ast.Node) bool {
+				ast.Inspect(sc.in, func(n ast.Node) bool {
 					as, ok := n.(*ast.AssignStmt)
 					if !ok || len(as.Lhs) != 1 || len(as.Rhs) != 1 {
 						return true
 					}
-					id, ok := as.Lhs[0].(*ast.Ident)
-					if !ok || info.Uses[id] != obj {
+					if v := flagCell(info, as.Lhs[0]); v == nil || types.Object(v) != obj {
 						return true
 					}
 					if tv, has := info.Types[as.Rhs[0]]; has && tv.Value != nil && tv.Value.String() == "false" {
@@ -1261,15 +1291,15 @@ func ruleHD() Rule {
 			key := f.Name + "|quoted is per here-document"
 			// a clearing assignment anywhere else than the head of that loop's body
 			// makes the rest of a quoted here-document expand
-			for obj, g := range flags {
+			for _, sc := range scopes {
+				obj, g := sc.obj, sc.g
 				info := g.Info()
-				ast.Inspect(g.Root().Body, func(n ast.Node) bool {
+				ast.Inspect(sc.in, func(n ast.Node) bool {
 					as, ok := n.(*ast.AssignStmt)
 					if !ok || len(as.Lhs) != 1 || len(as.Rhs) != 1 {
 						return true
 					}
-					id, ok := as.Lhs[0].(*ast.Ident)
-					if !ok || info.Uses[id] != obj {
+					if v := flagCell(info, as.Lhs[0]); v == nil || types.Object(v) != obj {
 						return true
 					}
 					if tv, has := info.Types[as.Rhs[0]]; !has || tv.Value == nil || tv.Value.String() != "false" {
@@ -1310,6 +1340,13 @@ func ruleHD() Rule {
 			switch {
 			case loop == nil:
 				rr.Unk(f, key, f.Pos(), "no loop taking pending here-documents with pop() found")
+			case isField:
+				// the flag is a field of a record: the record must be made afresh for each here-document
+				if why := freshRecordInLoop(c, quotedFn, quotedExpr, loop, loopFn); why == "" {
+					rr.OK(quotedFn, key, quotedExpr.Pos(), "fresh", "a field of a record that is created inside the per-here-document loop, so it starts false for each")
+				} else {
+					rr.Bad(quotedFn, key, quotedExpr.Pos(), "`quoted` is kept in a record that is not made afresh for each here-document ("+why+"): after one quoted delimiter a later body can be kept literal too")
+				}
 			case perCall:
 				rr.OK(quotedFn, key, quotedObj.Pos(), "fresh", "a local of a helper called once per here-document, so it starts false for each")
 			case quotedObj.Pos() >= loop.Body.Pos() && quotedObj.Pos() < loop.Body.End():
@@ -1336,6 +1373,150 @@ func ruleHD() Rule {
 				}
 			}
 		}}
+}
+
+// flagCell is the variable a flag expression denotes: a local, or a field of
+// a record other than the lexer itself (`hr.quoted`).
+func flagCell(info *types.Info, e ast.Expr) *types.Var {
+	switch x := ast.Unparen(e).(type) {
+	case *ast.Ident:
+		if v, ok := info.Uses[x].(*types.Var); ok {
+			return v
+		}
+		if v, ok := info.Defs[x].(*types.Var); ok {
+			return v
+		}
+	case *ast.SelectorExpr:
+		return stateField(info, x)
+	}
+	return nil
+}
+
+// stateField: e selects a field of a struct of package parser that is not the
+// lexer (a record a refactoring introduced to carry locals).
+func stateField(info *types.Info, e ast.Expr) *types.Var {
+	se, ok := ast.Unparen(e).(*ast.SelectorExpr)
+	if !ok {
+		return nil
+	}
+	v := core.FieldOf(info, se)
+	if v == nil || v.Pkg() == nil || v.Pkg().Name() != "parser" {
+		return nil
+	}
+	if tv, ok := info.Types[se.X]; ok && tv.Type != nil {
+		if n := namedTypeName(tv.Type); strings.HasSuffix(n, ".lexer") {
+			return nil
+		}
+	}
+	return v
+}
+
+// fieldBoundToCallOf: some function of the region assigns the field from a
+// call of g.
+func fieldBoundToCallOf(c *Ctx, funcs []*core.Func, fld *types.Var, g *core.Func) bool {
+	found := false
+	for _, h := range funcs {
+		info := h.Info()
+		h.OwnNodes(func(n ast.Node) bool {
+			switch x := n.(type) {
+			case *ast.AssignStmt:
+				if len(x.Lhs) == len(x.Rhs) {
+					for i, l := range x.Lhs {
+						if stateField(info, l) == fld && c.callsFunc(info, x.Rhs[i], g) {
+							found = true
+						}
+					}
+				}
+			case *ast.KeyValueExpr:
+				if id, ok := x.Key.(*ast.Ident); ok && info.Uses[id] == types.Object(fld) && c.callsFunc(info, x.Value, g) {
+					found = true
+				}
+			}
+			return true
+		})
+	}
+	return found
+}
+
+// freshRecordInLoop: the record whose field is tested (`hr` in `hr.quoted`) is
+// a local of the loop's function, defined inside the loop body from a
+// composite literal or from a function that returns a composite literal it has
+// just built.  Returns "" or why not.
+func freshRecordInLoop(c *Ctx, g *core.Func, flagExpr ast.Expr, loop *ast.ForStmt, loopFn *core.Func) string {
+	se, ok := ast.Unparen(flagExpr).(*ast.SelectorExpr)
+	if !ok {
+		return "the flag is not a field selection"
+	}
+	id, ok := ast.Unparen(se.X).(*ast.Ident)
+	if !ok {
+		return "the record is not held in a variable"
+	}
+	if g.Root() != loopFn.Root() {
+		return "the flag is tested outside the function that loops over the here-documents"
+	}
+	info := g.Info()
+	v, ok := info.Uses[id].(*types.Var)
+	if !ok {
+		return "the record is not held in a variable"
+	}
+	if v.Pos() < loop.Body.Pos() || v.Pos() >= loop.Body.End() {
+		return "the record is declared outside the loop over the pending here-documents"
+	}
+	if reassigned(g.Root(), v) {
+		return "the record variable is assigned again"
+	}
+	def := localDef(g.Root(), info, v)
+	if def == nil {
+		return "the record has no initialiser"
+	}
+	fresh := func(h *core.Func, e ast.Expr) bool {
+		e = ast.Unparen(e)
+		if u, ok := e.(*ast.UnaryExpr); ok && u.Op == token.AND {
+			e = ast.Unparen(u.X)
+		}
+		_, isLit := e.(*ast.CompositeLit)
+		return isLit
+	}
+	if fresh(g, def) {
+		return ""
+	}
+	call, ok := ast.Unparen(def).(*ast.CallExpr)
+	if !ok {
+		return "the record is not built where it is declared"
+	}
+	fo := core.StaticCallee(info, call)
+	if fo == nil {
+		return "the record comes from a call that cannot be resolved"
+	}
+	h := c.P.FuncOf(fo)
+	if h == nil || h.Body == nil {
+		return "the record comes from outside the library"
+	}
+	hinfo := h.Info()
+	okAll, n := true, 0
+	h.OwnNodes(func(x ast.Node) bool {
+		ret, isRet := x.(*ast.ReturnStmt)
+		if !isRet || len(ret.Results) != 1 {
+			return true
+		}
+		n++
+		if fresh(h, ret.Results[0]) {
+			return true
+		}
+		if rid, isID := ast.Unparen(ret.Results[0]).(*ast.Ident); isID {
+			if rv, isVar := hinfo.Uses[rid].(*types.Var); isVar && !reassigned(h, rv) {
+				if d := localDef(h, hinfo, rv); d != nil && fresh(h, d) {
+					return true
+				}
+			}
+		}
+		okAll = false
+		return true
+	})
+	if !okAll || n == 0 {
+		return "the constructor does not return a record it has just built"
+	}
+	return ""
 }
 
 // ---------------------------------------------------------------------------
